@@ -899,7 +899,7 @@ func (in *Interp) callBuiltin(caller *frame, b *ssa.Builtin, args []Val) Val {
 		case Slice:
 			add = y.a
 		case Str:
-			for i := range y.s {
+			for i := 0; i < len(y.s); i++ {
 				add = append(add, in.strByte(y, i))
 			}
 		}
